@@ -681,7 +681,8 @@ def judge_ifc(ifc):
     """returns None or (kind, expected, actual); kind 'text-known' = the difference is exactly the listed mechanism
     (the flag is not handed from child to child of an out-of-flow box)"""
     items = ifc['items']
-    if any(it[0] == 't' and it[1] is None and not it[5].endswith('::marker') for it in items):
+    # (U+200B alone: the box element_to_box appends to an empty list item after the processing)
+    if any(it[0] == 't' and it[1] is None and not it[5].endswith('::marker') and it[4] != '\u200b' for it in items):
         return ('unprocessed', None, [it[4] for it in items if it[0] == 't'])
     ref_items, act = [], []
     for it in items:
